@@ -37,14 +37,17 @@ def closed_cases(tier):
     grids = [((8, 6), (80.0, 90.0)), ((7, 5), (70.0, 75.0))] if tier == "quick" else [((8, 6), (80.0, 90.0)), ((6, 8), (90.0, 80.0)), ((7, 5), (70.0, 75.0)), ((5, 8), (75.0, 80.0))]
     halos = (0.0, None, 13.0, 20.0) if tier == "quick" else sl.HALOS
     lvsets = ([3], [0, 2, 5], [7, 1]) if tier == "quick" else ([3], [0, 2, 5], [7, 1], 4, [6, 5, 4, 0])
-    for pn, g, h, m, mp, fp, lv in itertools.product(CONST, grids, halos, ("full", [4, 4], [64, 64]), ("zero", "grid", "off"), (False, True), lvsets):
+    # [64, 4] / [4, 64]: the request exceeds the padded grid in ONE direction only - documented answer: all modes in both
+    for pn, g, h, m, mp, fp, lv in itertools.product(CONST, grids, halos, ("full", [4, 4], [64, 64], [64, 4], [4, 64]), ("zero", "grid", "off"), (False, True), lvsets):
         nx, ny = g[0]
         nxe, nye, _, _ = sl.padded_size(nx, ny, g[1], h)
         mm = (nxe, nye) if m == "full" else tuple(m)
-        if (mm[0] <= nxe and mm[1] <= nye) and ((nxe - mm[0]) % 2 or (nye - mm[1]) % 2 or mm[0] % 2 or mm[1] % 2):
+        if m == "full" and (nxe % 2 or nye % 2):
+            continue  # an odd count cannot be requested explicitly
+        if sl.effective_modes(mm, nxe, nye) is None:
             continue  # rejected combinations (odd difference / odd count): C11's business
-        if (mm[0] > nxe) != (mm[1] > nye):
-            continue
+        if m in ([64, 4], [4, 64]) and (mp == "off" or lv != lvsets[1]):
+            continue  # one level set and two tower positions suffice for the one-sided requests
         yield {"prof": pn, "grid": g[0], "dom": g[1], "halo": h, "modes": m, "mp": mp, "footprint": fp, "levels": lv}
 
 
@@ -58,6 +61,7 @@ def case_closed(case):
     z = ZL
     prof = tuple(np.full(len(z), x) for x in pv)
     modes = sl.resolve_modes(case["modes"], nx, ny, dom, case["halo"])
+    eff = sl.effective_modes(modes, *sl.padded_size(nx, ny, dom, case["halo"])[:2])
     sl.pollute(*sl.padded_size(nx, ny, dom, case["halo"])[:2], dx, dy)
     mp = {"zero": (0.0, 0.0), "grid": (3 * dx, 2 * dy), "off": (13.0, 22.0)}[case["mp"]]
     mp_values = mp
@@ -80,7 +84,7 @@ def case_closed(case):
         if tuple(float(t) for t in mp) != tuple(mp_values):
             v.append({"sub": "argument-modified", "sig": "argument-modified/meas_pt", "msg": "the solver changed the caller's meas_pt array from %r to %r; config %s" % (mp_values, tuple(mp), core.canon(case))})
             break
-        cw, fw = halfspace.solve(q, dom, z[lvl] - z[0], pv, modes, case["halo"], meas_pt=mp_values, bg=bg, footprint=fp)
+        cw, fw = halfspace.solve(q, dom, z[lvl] - z[0], pv, eff, case["halo"], meas_pt=mp_values, bg=bg, footprint=fp)
         for nm, a, b in (("conc", c, cw), ("flux", f, fw)):
             e = sl.relerr(a, b, max(np.abs(b).max(), abs(bg) if nm == "conc" else 0, 1e-300))
             worst = max(worst, e)
@@ -194,6 +198,55 @@ def case_order(case):
             "obs": {"resolved_modes": int(ok.sum()), "mode_pairs_judged": judged, "min_ratio": None if not np.isfinite(minratio) else round(minratio, 2), "ladder": ns}}
 
 
+def field_order_cases(tier):
+    regimes = {
+        "ordinary": {"grid": [32, 16], "dom": [128.0, 64.0], "halo": 64.0, "modes": [32, 16], "height": 4.0},
+        # cells fine against the output height, every mode kept: the fastest retained mode decays by exp(-18) below the
+        # output level - still inside the regime the property names (growth bound 18), well resolved by 16+ layers
+        "fine": {"grid": [32, 16], "dom": [32.0, 16.0], "halo": 16.0, "modes": [64, 48], "height": 3.0},
+    }
+    for (rn, r), prec, fp in itertools.product(regimes.items(), ("single", "double"), (False, True)):
+        if fp and tier == "quick" and rn == "ordinary":
+            continue
+        yield dict(r, regime=rn, prec=prec, footprint=fp)
+
+
+def case_field_order(case):
+    """third order on the RETURNED FIELDS in the maximum norm (single precision stores fields to ~1e-7 of their maximum, so
+    per-component errors are not meaningful there): numerical mode vs the harness' closed form on ladders of 16, 32, 64
+    layers below the output height, in the default single and in double precision."""
+    S0 = sl.solver()
+    nx, ny = case["grid"]
+    dom = tuple(case["dom"])
+    pv = (3.0, 1.0, 0.7, 0.9, 0.5)
+    fp = case["footprint"]
+    q = np.zeros((ny, nx))
+    q[ny // 3, nx // 4], q[ny // 2, nx // 2] = 1.0, 0.5
+    mp = (dom[0] / nx * (nx // 2), dom[1] / ny * (ny // 3)) if fp else (0.0, 0.0)
+    floor = 4e-6 if case["prec"] == "single" else 1e-11
+    errs = []
+    for n in (16, 32, 64):
+        ntot = n + n // 2
+        z = np.linspace(0.05, 0.05 + 1.5 * case["height"], ntot + 1)
+        prof = tuple(np.full(ntot + 1, c) for c in pv)
+        _, c, f = S0(q, z, prof, dom, n, modes=tuple(case["modes"]), halo=case["halo"], precision=case["prec"], footprint=fp, meas_pt=mp)
+        cw, fw = halfspace.solve(q, dom, np.array([z[n] - z[0]]), pv, tuple(case["modes"]), case["halo"], meas_pt=mp, footprint=fp)
+        errs.append((sl.relerr(np.asarray(c, dtype=float)[None], cw, np.abs(cw).max()), sl.relerr(np.asarray(f, dtype=float)[None], fw, np.abs(fw).max())))
+    errs = np.array(errs)
+    v = []
+    for col, nm in ((0, "conc"), (1, "flux")):
+        e = errs[:, col]
+        for k in range(2):
+            if e[k + 1] > floor and not e[k] / e[k + 1] >= 6.5:
+                v.append({"sub": "field-order", "sig": "field-order/%s/%s" % (case["prec"], nm),
+                          "msg": "%s, %s precision, %s regime: field error vs closed form %s for 16/32/64 layers - ratio %.2f < 6.5 on halving (rounding floor %.0e); case %s"
+                          % (nm, case["prec"], case["regime"], ["%.2e" % x for x in e], e[k] / e[k + 1], floor, core.canon(case))})
+                break
+        if not e[-1] <= max(1e-3, floor):
+            v.append({"sub": "field-order", "sig": "field-order/%s/%s-level" % (case["prec"], nm), "msg": "%s: error %.2e with 64 layers below the output height (expected <= 1e-3); case %s" % (nm, e[-1], core.canon(case))})
+    return {"v": v[:3], "nt": True, "n": 3, "obs": {"errors": [["%.2e" % x for x in row] for row in errs.tolist()]}}
+
+
 def run(ctx):
     os.environ["VERIF_SEED"] = str(ctx.seed)
     core.warm_numba()
@@ -204,6 +257,7 @@ def run(ctx):
     )
     ctx.run_cases(case_closed, closed_cases(ctx.tier), sub="closed-form")
     ctx.run_cases(case_mean_profile, [{"prof": p, "halo": h} for p in CONST for h in (0.0, 13.0)], sub="mean-profile", chunksize=1)
+    ctx.run_cases(case_field_order, field_order_cases(ctx.tier), sub="order on returned fields, single and double precision", chunksize=1)
     res = ctx.run_cases(case_order, order_cases(ctx.tier), sub="order", chunksize=1)
     ctx.cov["order_mode_pairs_judged"] = int(sum(r.get("obs", {}).get("mode_pairs_judged", 0) for r in res))
     mr = [r["obs"]["min_ratio"] for r in res if r.get("obs", {}).get("min_ratio") is not None]
